@@ -28,6 +28,14 @@ def target_src(kind, attrs):
         return f'#[typeshare]\n#[serde(tag = "type", content = "content")]\n{a}pub enum Target {{ N(u32), S {{ f: Second }}, U }}\n'
     if kind == "alias":
         return f"#[typeshare]\n{a}pub type Target = Vec<String>;\n"
+    if kind == "generic_alias":
+        return f"#[typeshare]\n{a}pub type Target<T> = Vec<T>;\n"
+    if kind == "generic_enum":
+        return f'#[typeshare]\n#[serde(tag = "type", content = "content")]\n{a}pub enum Target<T> {{ A(T), B {{ f: Vec<T> }}, U }}\n'
+    if kind == "unit_struct":
+        return f"#[typeshare]\n{a}pub struct Target;\n"
+    if kind == "newtype_struct":
+        return f"#[typeshare]\n{a}pub struct Target(String);\n"
     if kind == "recursive_struct":
         return f"#[typeshare]\n{a}pub struct Target {{ pub next: Option<Box<Target>>, pub kids: Vec<Target> }}\n"
     if kind == "recursive_enum":
@@ -36,7 +44,7 @@ def target_src(kind, attrs):
 
 
 def source(case):
-    t = "Target<u32>" if case["kind"] == "generic_struct" else "Target"
+    t = "Target<u32>" if case["kind"] in ("generic_struct", "generic_alias", "generic_enum") else "Target"
     ta = ['#[serde(rename = "TargetRenamed")]'] if case["renamed"] else []
     sa = '#[serde(rename = "SecondRenamed")]\n' if case["second_renamed"] else ""
     src = f"#[typeshare]\n{sa}pub struct Second {{ pub s: u32 }}\n"
